@@ -634,12 +634,17 @@ def _deep_flat(x: Any, pre: str = "") -> Dict[str, Any]:
     return out
 
 
-def hard_diffs(a: dict, b: dict, diffs: list) -> Tuple[list, list]:
+def hard_diffs(a: dict, b: dict, diffs: list, refl_clock: bool = False) -> Tuple[list, list]:
     """Differences that can NEVER be one of the by-design classes, split off before any attribution:
       * health.jsonl values differ (same number of records) although the utterances and every stage/turn stream
         (t1, t2, t4, apply, turn, scheduler) are byte-identical
       * a snapshot / sidecar body that exists in both runs differs under the same premise (same retrieval, same approved
         deltas, same version, same turn => the persisted body must be the same)
+    `refl_clock`: reflection is on AND the clock is perturbed.  Then a snapshot body may differ by design even under the
+    quiet premise: a reflection that ran into its wall budget wrote no episode, so a later turn retrieves another
+    episode in its place with the same counts in t2.jsonl (the stream carries no ids) and the GEL section of the
+    snapshot names other edges.  Such a difference is not split off as hard; it goes to the ablation (it must vanish
+    with reflection gated off, otherwise it is reported as a fresh violation).
     -> (hard, rest)"""
     if "crash" in a or "crash" in b:
         return [], diffs
@@ -652,7 +657,7 @@ def hard_diffs(a: dict, b: dict, diffs: list) -> Tuple[list, list]:
         grp, name, fields = d
         if grp == "logs" and name == "health.jsonl" and "#records" not in fields and quiet:
             hard.append(d)
-        elif grp == "snaps" and "#missing" not in fields and quiet:
+        elif grp == "snaps" and "#missing" not in fields and quiet and not refl_clock:
             hard.append(d)
         else:
             rest.append(d)
@@ -868,7 +873,7 @@ def run_e2e(ctx: Ctx, comp: E2EComp, n: int) -> None:
             diffs = diff_obs(base, r)
             if not diffs:
                 continue
-            hard, diffs = hard_diffs(base, r, diffs)
+            hard, diffs = hard_diffs(base, r, diffs, refl_clock=has_reflection(case) and clock_perturbed(v))
             for key, detail in fresh_keys(v, hard):
                 hardq.append(({"case": case, "base": base_v, "variant": v},
                               f"variant {v['name']} (hashseed {v['hashseed']}, clock {v['clock']}, warm {v['warm']}): {detail} "
@@ -1075,7 +1080,7 @@ def replay(ctx: Ctx, rec: dict) -> int:
         for d in diffs:
             print(f"REPLAY e2e difference {d[0]} {d[1]} fields={d[2]}")
         keys: List[str] = []
-        hard, diffs = hard_diffs(base, var, diffs)
+        hard, diffs = hard_diffs(base, var, diffs, refl_clock=has_reflection(c["case"]) and clock_perturbed(c["variant"]))
         keys += [k for k, _ in fresh_keys(c["variant"], hard)]
         if hard:
             print("REPLAY e2e health/snapshot-body difference with identical utterances and apply/t4 records")
